@@ -10,7 +10,7 @@ from __future__ import annotations
 
 from .. import gen, kernel
 from ..model import HistoryModel, ModelError, flat_ops, is_ignored_path, touched_paths
-from ..world import World, exec_history_step, gen_history_step
+from ..world import World, exec_history_step, gen_history_step, mirror_step
 from .base import Engine, Outcome
 
 PROP = "C11"
@@ -43,6 +43,8 @@ def gen_swarm(rng):
             "undo_empty": 1,
             "redo_empty": 1,
             "set_limit": rng.choice([0, 0, 1]),
+            "api": rng.choice([0, 2, 4]),
+            "clear": rng.choice([0, 0, 1]),
         },
     }
 
@@ -69,20 +71,7 @@ def gen_history_trace(rng, swarm=None):
         st = gen_history_step(rng, model, tree, classes, swarm, nid, program=swarm["program"])
         nid += 1
         steps.append(st)
-        if st["op"] == "do":
-            model.do({"id": st["cs"]["id"], "desc": st["cs"]["desc"], "ops": st["cs"]["ops"]})
-        elif st["op"] == "set_limit":
-            model.limit = st["limit"]
-        elif st["op"] in ("undo", "undo_drop") and model.undo:
-            model.undo_sel(None, drop=st["op"] == "undo_drop")
-        elif st["op"] == "undo_sel" and model.undo:
-            model.undo_sel(st["i"] % len(model.undo), drop=bool(st.get("drop")))
-        elif st["op"] == "redo" and model.redo:
-            if model.redo_feasible(None):
-                model.redo_sel(None)
-        elif st["op"] == "redo_sel" and model.redo:
-            if model.redo_feasible(st["i"] % len(model.redo)):
-                model.redo_sel(st["i"] % len(model.redo))
+        mirror_step(model, st)
     return {"init": init, "limit": swarm["limit"], "steps": steps, "swarm": swarm}
 
 
@@ -138,7 +127,22 @@ def check_invariant(out, world, model, i, st, sig_extra=None, prev_snap=None):
     if real_u != mod_u or real_r != mod_r:
         ok = False
         out.violate("history_shape", sig, {"step": i, "st": _brief(st), "real": [real_u, real_r], "model": [mod_u, mod_r]}, where=i)
+    tu, tr = h.tobe_undone, h.tobe_redone
+    if (tu.description if tu else None) != (mod_u[-1] if mod_u else None) or (tr.description if tr else None) != (mod_r[-1] if mod_r else None):
+        ok = False
+        out.violate("history_query", dict(sig, query="tobe_undone/tobe_redone"),
+                    {"step": i, "real": [tu.description if tu else None, tr.description if tr else None], "model": [mod_u[-1:], mod_r[-1:]]}, where=i)
     snap = world.snapshot()
+    # which recorded changes touched a given file (History.get_file_undo_list)
+    probe = sorted(k for k, v in snap.items() if isinstance(v, bytes) and not is_ignored_path(k))[:1]
+    for pth in probe:
+        got = [c.description for c in h.get_file_undo_list(world.project.get_file(pth))]
+        want_l = [r["desc"] for r in model.undo if any(o[0] != "set" and pth in ([o[1], o[2]] if o[0] == "move" else [o[1]]) and
+                                                       (o[0] in ("edit", "bytes", "mkfile") or (o[0] in ("move", "remove") and o[3 if o[0] == "move" else 2] == "f"))
+                                                       for o in flat_ops(r["ops"]))]
+        if got != want_l:
+            ok = False
+            out.violate("history_query", dict(sig, query="get_file_undo_list"), {"step": i, "path": pth, "real": got, "model": want_l}, where=i)
     try:
         want = model.current().files
     except Exception as e:  # a surviving change cannot be replayed without an undone one
